@@ -1,6 +1,6 @@
 // C15 — custom messages replace the default text verbatim and can be extracted alone.
 // E-enum: (1) every message-capable rule x message class x violating value x carrier: clause text = label + message
-// (label by CJK content), default wording without a message; (2) all clause-kind sequences of length 1..5 realised by
+// (label by CJK content), default wording without a message; (2) all clause-kind sequences of length 1..5 (thorough 1..7) realised by
 // real validation calls; GetOnlyExplainErr must return exactly the explanation parts in order.
 package main
 
@@ -238,6 +238,9 @@ func run(c *runner.Ctx) {
 	c.Space("extractor-sequences")
 	kinds := []byte{'Z', 'E', 'D', 'U'}
 	maxLen := 5
+	if c.Thorough() {
+		maxLen = 7
+	}
 	for total := 1; total <= maxLen; total++ {
 		for g := 0; g <= total && g <= 2; g++ {
 			k := total - g
